@@ -171,7 +171,7 @@ class PoolAnalysis:
         for d in self.deltas:
             blk = block_of(stmt_of(d.node))
             for mv in self.moves:
-                if any(mv.anchor is s for s in blk):
+                if any(mv.anchor is s for s in blk) and self.g.control_equivalent(mv.anchor, stmt_of(d.node), enclosing_for(mv.anchor, f.node)):
                     mv.deltas.append(d)
                     d.used = True
                     break
